@@ -65,7 +65,7 @@ print(e, f, g)
             return x, rest
         case {'k': y, **kw}:
             return y, kw
-        case str() as s | bytes() as s:
+        case (str() as s) | (bytes() as s):
             return s
         case P(a=1, b=z) if z:
             return z
@@ -193,6 +193,7 @@ class K: x = f()
 s = """multi
 line""" ; t = (a,
    b)
+if 1:
 \tu = 0 if False else 1
 ''',
 }
